@@ -508,6 +508,7 @@ func (s *Service) ApplyPlanLive(ctx context.Context, desired config.Pipeline, ha
 	if err != nil {
 		return fresh, err
 	}
+	verifhook.Point("provisioning.applylive.checked")
 
 	if !running {
 		// TOCTOU close (design doc's "Concurrent applies / apply-during-
